@@ -8,6 +8,9 @@
 #include "desc_diff_enum.c"
 #undef main
 #define MAXB 4096
+#ifndef PAIR_SUM
+#define PAIR_SUM 6
+#endif
 static void *blk[MAXB]; static int state[MAXB], nb; static long viol;      /* state: 1 live, 2 freed */
 static void *t_alloc (int n) { void *p = malloc (n > 0 ? n : 1); if (nb < MAXB) { blk[nb] = p; state[nb++] = 1; } return p; }
 static void t_free (void *p) { int i; if (p == NULL) { viol++; return; } for (i = nb - 1; i >= 0; i--) if (blk[i] == p) { if (state[i] != 1) viol++; state[i] = 2; return; } viol++; }
@@ -77,9 +80,22 @@ static void pair_cost_family (void)
         for (op = 0; op < 2; op++) for (co = 0; co < 2; co++) { toks = in; ntok = shape == 1 ? 2 : 1; pair_one (op, co); }
       }
 }
+/* third family: longer ambiguous sums, so that the table of blocks to keep (reserv_mem_tab) of the cost pruning grows past its load limit
+   while nodes are being released (needs >= 5 operands; suggested by the seeded change C13-m6) */
+static void pair_sum_family (void)
+{
+  static int in[2 * 8]; int nop, op, co, form, i;
+  for (i = 0; i < 16; i++) in[i] = i % 2 == 0 ? 'a' : '+';
+  for (form = 0; form < 3; form++) for (nop = 2; nop <= PAIR_SUM; nop++) for (op = 0; op < 2; op++) for (co = 0; co < 2; co++)
+    {
+      sprintf (text, form == 0 ? "E : E '+' E # add 1 (0 2) | 'a' # 0 ;\n" : form == 1 ? "E : E '+' E # add 1 (0 1 2) | 'a' # leaf 2 (0) ;\n" : "E : E '+' E # add 1 (2 - 0) | E '+' E # sub 2 (0 2) | 'a' # 0 ;\n");
+      toks = in; ntok = 2 * nop - 1; pair_one (op, co);
+    }
+}
 int main (void)
 {
   pair_cost_family ();
+  pair_sum_family ();
   for (nalt = 1; nalt <= PAIR_ALTS; nalt++) penum_alt (0);
   printf ("CASE parse_memory_ownership %ld %s parse_free only gets blocks of this parse, once, never NULL; the tree is intact after the parse and after yaep_free_grammar; yaep_free_tree releases every block once (ambiguous cost family of 2-3 alternatives with costs 1..3 in every order, flat / nested / under a common node; descriptions of <= %d alternatives, inputs of length <= %d, one/all parses, with/without cost flag)\n", pcases, pbad ? "FAIL" : "OK", PAIR_ALTS, INLEN);
   return pbad != 0;
